@@ -2,6 +2,7 @@ import asyncio
 import contextlib
 import random
 import sys
+import threading
 import weakref
 from abc import ABC, abstractmethod
 from asyncio import Handle, Lock, Task
@@ -444,13 +445,20 @@ class PosPriorityQueue(Generic[T]):
         self.n_inserted = 0
         self.n_removed = 0
         self.priority_boost_factor = 1.2
+        # The queue replaces the `deque` of an event loop, whose `append()`, used by
+        # `call_soon_threadsafe()` from other threads, and `popleft()` are atomic.
+        # Heap operations are not: they call the `__lt__` methods of the entries,
+        # during which the interpreter can switch threads.  So we serialize access.
+        self._lock = threading.RLock()
 
     def __iter__(self) -> Iterator[T]:
         """
         Iterate over the objects in the queue, in the order they would be popped.
         """
-        self._pq.sort()
-        yield from self._pq
+        with self._lock:
+            self._pq.sort()
+            objs = list(self._pq)
+        yield from objs
 
     def __len__(self) -> int:
         return len(self._pq)
@@ -459,18 +467,20 @@ class PosPriorityQueue(Generic[T]):
         return bool(self._pq)
 
     def clear(self) -> None:
-        self._pq.clear()
+        with self._lock:
+            self._pq.clear()
 
     def append(self, obj: T) -> None:
         """
         Insert an item into its default place according to priority
         """
-        pv = PriorityValue(
-            base_priority=self._get_priority(obj),
-            inserted_at=self.n_inserted,
-        )
-        self._pq.add(pv, obj)
-        self.update_counters(True)
+        with self._lock:
+            pv = PriorityValue(
+                base_priority=self._get_priority(obj),
+                inserted_at=self.n_inserted,
+            )
+            self._pq.add(pv, obj)
+            self.update_counters(True)
 
     def update_counters(self, inserted: bool) -> None:
         if inserted:
@@ -548,12 +558,13 @@ class PosPriorityQueue(Generic[T]):
         """
         Insert an item at a specific priority
         """
-        pv = PriorityValue(
-            base_priority=priority,
-            inserted_at=self.n_inserted,
-        )
-        self._pq.add(pv, obj)
-        self.update_counters(True)
+        with self._lock:
+            pv = PriorityValue(
+                base_priority=priority,
+                inserted_at=self.n_inserted,
+            )
+            self._pq.add(pv, obj)
+            self.update_counters(True)
 
     def insert(self, position: int, obj: T) -> None:
         """
@@ -565,47 +576,51 @@ class PosPriorityQueue(Generic[T]):
         # reglar priority queues are (1, priority) and so the
         # immediate queue is always first.
 
-        promoted: List[T] = []
-        priority_val = 0.0
-        try:
-            while position > len(promoted):
-                promoted.append(self.popleft())
-            # are there other immediate objects in the queue?
-            # if so, we select a one lower priority value for our
-            # inserted objects.
-            pv, _ = self._pq.peekitem()
-            if pv.priority_class == 0:
-                priority_val = pv.base_priority - 1
-        except IndexError:
-            pass
-        promoted.append(obj)
-        pv = PriorityValue(
-            priority_class=0,
-            base_priority=priority_val,
-            inserted_at=self.n_inserted,
-        )
-        for obj in promoted:
-            self._pq.add(pv, obj)
-        self.update_counters(True)
+        with self._lock:
+            promoted: List[T] = []
+            priority_val = 0.0
+            try:
+                while position > len(promoted):
+                    promoted.append(self.popleft())
+                # are there other immediate objects in the queue?
+                # if so, we select a one lower priority value for our
+                # inserted objects.
+                pv, _ = self._pq.peekitem()
+                if pv.priority_class == 0:
+                    priority_val = pv.base_priority - 1
+            except IndexError:
+                pass
+            promoted.append(obj)
+            pv = PriorityValue(
+                priority_class=0,
+                base_priority=priority_val,
+                inserted_at=self.n_inserted,
+            )
+            for obj in promoted:
+                self._pq.add(pv, obj)
+            self.update_counters(True)
 
     def popleft(self) -> T:
-        result = self._pq.pop()
-        self.update_counters(False)
-        return result
+        with self._lock:
+            result = self._pq.pop()
+            self.update_counters(False)
+            return result
 
     def remove(self, obj: T) -> None:
         """
         Remove an object from the queue.
         """
-        self._pq.remove(obj)
-        self.update_counters(False)
+        with self._lock:
+            self._pq.remove(obj)
+            self.update_counters(False)
 
     def find(
         self,
         key: Callable[[T], bool],
         remove: bool = False,
     ) -> Optional[T]:
-        found = self._pq.find(key, remove)
+        with self._lock:
+            found = self._pq.find(key, remove)
         if found is not None:
             pri, obj = found
             return obj
@@ -619,18 +634,19 @@ class PosPriorityQueue(Generic[T]):
         """
         Reschedule an object which is already in the queue.
         """
-        found = self._pq.find(key)
-        if found is None:
-            return None
-        pri, obj = found
-        if pri.priority_class == 0:
-            # positionally scheduled entries keep their place
-            return obj
-        pv = PriorityValue(
-            base_priority=new_priority,
-            inserted_at=self.n_inserted,
-        )
-        return self._pq.reschedule(key, pv)
+        with self._lock:
+            found = self._pq.find(key)
+            if found is None:
+                return None
+            pri, obj = found
+            if pri.priority_class == 0:
+                # positionally scheduled entries keep their place
+                return obj
+            pv = PriorityValue(
+                base_priority=new_priority,
+                inserted_at=self.n_inserted,
+            )
+            return self._pq.reschedule(key, pv)
 
     def reschedule_all(self) -> None:
         """
@@ -641,10 +657,11 @@ class PosPriorityQueue(Generic[T]):
         # update the priorities in place and restore the heap.  The entries keep
         # their sequence numbers, so that positional entries, and entries which end
         # up with equal priorities, retain their relative order.
-        for pri, obj in self._pq.items():
-            if pri.priority_class != 0:
-                pri.base_priority = self._get_priority(obj)
-        self._pq.refresh()
+        with self._lock:
+            for pri, obj in self._pq.items():
+                if pri.priority_class != 0:
+                    pri.base_priority = self._get_priority(obj)
+            self._pq.refresh()
 
 
 class EventLoopLike(Protocol):  # pragma: no cover
